@@ -39,6 +39,7 @@ fn main() {
     let prof_name = a.get("profile").cloned().unwrap_or_else(|| "mixed".into());
     let role = a.get("role").cloned().unwrap_or_else(|| "both".into());
     let snap = arg_u64(&a, "snap", 0) == 1;
+    let snap_final_only = arg_u64(&a, "snap", 0) == 2; // statistics snapshot only while settling (small traces)
     let mut ops_hist: std::collections::BTreeMap<String, u64> = Default::default();
     let first = arg_u64(&a, "first", 0);
     for i in first..n {
@@ -58,6 +59,9 @@ fn main() {
             }
         };
         gen::run_random(&mut d, &mut rng, &p, steps);
+        if snap_final_only {
+            d.want_snap = true;
+        }
         let settled = gen::settle(&mut d, 200);
         for st in &d.trace {
             *ops_hist.entry(st["op"]["op"].as_str().unwrap_or("?").to_string()).or_default() += 1;
